@@ -203,7 +203,21 @@ pub fn execute(c: &GCfg, seed: u64) -> W {
                         }
                         6 => subs.push(w.add_direct(0, NOGATE, false, false, rng.chance(1, 2))),
                         7 => subs.push(w.add_selector(0, false)),
-                        8 => subs.push(w.add_channeled(0, rng.range(1, 3) as usize, rng.below(3) as u8, NOGATE, false, false, false)),
+                        8 => {
+                            if rng.chance(1, 2) {
+                                // slow subscriber: its channel is often full when it is unsubscribed or the store stops
+                                subs.push(w.add_channeled_sub(0, rng.range(1, 2) as usize, rng.below(3) as u8, false, |sub| {
+                                    sub.hook = Some(Arc::new(|c: &Arc<Ctx>, _st: &St, _a: &Act| {
+                                        if !cfg!(miri) {
+                                            std::thread::sleep(std::time::Duration::from_micros(80));
+                                        }
+                                        c.perturb();
+                                    }));
+                                }));
+                            } else {
+                                subs.push(w.add_channeled(0, rng.range(1, 3) as usize, rng.below(3) as u8, NOGATE, false, false, false));
+                            }
+                        }
                         9 => {
                             if !subs.is_empty() {
                                 let i = rng.below(subs.len() as u64) as usize;
